@@ -65,6 +65,15 @@ def main():
         deco = mod.inf_cache(cache=cache, keymap=M.make_keymap(job['keymap']), **kwds)
     fn = M.FUNCS[job['fn']][0]
     f = deco(fn)
+    if noise.get('failed_call_first'):
+        # earlier in this process a call failed: arguments no keymap can encode / hash (a generator, an object
+        # whose pickling and repr raise). What it leaves behind must not change later keys.
+        for bad in ((i for i in range(3)), M.dec({'$o': 'unpicklable'}), M.dec({'$o': 'badrepr'})):
+            for probe in (f.key, f.lookup):
+                try:
+                    probe(bad) if job['fn'] not in ('f9',) else probe(bad, 1)
+                except BaseException:
+                    pass
     out = []
     seen = set()
     for op in job['calls']:
